@@ -22,10 +22,13 @@ request grammar (one line per case; see lean/Driver/C19.lean):
       (order-observing: places xN | aN = arr[ix(xN)] | t0 t1 = tp.0 tp.1 | at = arr[ix(tp.0)] | lN = let xN |
        LN = let xN: i64 | w = _ ; the oracle is the hand-written sequence `p0 = t.0; p1 = t.1; ...`)
   mm.<macro> <form> <akey>:<aid> <bkey>:<bid>                         -> id of the returned argument
+  ev.* / evo.* (argument expressions with side effects) and hy.<tag> <base request> (positions, caller names and
+  items named like the expansion's binders): units of vlib/progs/c19_hyg.py, compiled in the same chunks
 """
 import os, random, itertools
 from vlib import core
 from vlib.progs import common
+from vlib.progs import c19_hyg
 
 I32MAX, I32MIN = 2147483647, -2147483648
 I64MAX, I64MIN = 9223372036854775807, -9223372036854775808
@@ -121,6 +124,8 @@ class Unit:
         self.data = None              # rebind: list of rust expressions + request tokens
 
     def sig(self):
+        if getattr(self, "sig_override", None):
+            return self.sig_override
         return {
             "opt": "o: Option<i64>", "optopt": "o: Option<Option<i64>>", "res": "r: Result<i64, i64>",
             "mm": "a: Keyed, b: Keyed", "rb": f"r: Result<{self.argty}, i64>",
@@ -679,10 +684,16 @@ def main_src(units, tier, seed):
          "    let mut oopts: Vec<Option<Option<i64>>> = vec![None, Some(None)]; for v in &vals { oopts.push(Some(Some(*v))); }",
          "    let mut ress: Vec<Result<i64, i64>> = vec![]; for v in &vals { ress.push(Ok(*v)); ress.push(Err(*v)); }",
          ]
+    if any(u.argkind == "ev" for u in units):
+        L += c19_hyg.ev_main_decls()
     for u in units:
         sc = "in" if u.scope else "out"
         pre, suf = u.req
-        if u.argkind == "opt":
+        if u.argkind == "ev":
+            L.append(c19_hyg.ev_main_line(u))
+        elif getattr(u, "main_override", None):
+            L += u.main_override(u, sc)
+        elif u.argkind == "opt":
             L.append(f"    for o in &opts {{ println!(\"{pre}{{}}{suf}\\t{{}}\\t{{}}\\t{sc}\", fo(*o), impl_{u.uid}(*o), oracle_{u.uid}(*o)); }}")
         elif u.argkind == "optopt":
             L.append(f"    for o in &oopts {{ println!(\"{pre}{{}}{suf}\\t{{}}\\t{{}}\\t{sc}\", foo(*o), impl_{u.uid}(*o), oracle_{u.uid}(*o)); }}")
@@ -702,7 +713,7 @@ def main_src(units, tier, seed):
 
 
 def program_src(units, tier, seed):
-    parts = [PRELUDE]
+    parts = [PRELUDE + c19_hyg.PRELUDE2]
     for u in units:
         parts.append(u.impl_fn(stub=u.rejected))
         parts.append(u.oracle_fn())
@@ -711,7 +722,7 @@ def program_src(units, tier, seed):
 
 
 def single_src(u):
-    return PRELUDE + "\n" + u.impl_fn()
+    return PRELUDE + c19_hyg.PRELUDE2 + "\n" + u.impl_fn()
 
 
 def check_individually(wd, units, stats):
@@ -725,6 +736,8 @@ def check_individually(wd, units, stats):
     for u, (rc, err) in zip(units, res):
         u.rejected = (rc != 0)
         u.stderr = err[-600:] if rc != 0 else ""
+        if u.rejected and getattr(u, "scope_if_accepted", False):
+            u.scope = False
     stats["individual_compiles"] = stats.get("individual_compiles", 0) + len(units)
 
 
@@ -733,6 +746,7 @@ def generate(ctx):
     wd = common.workdir("c19")
     stats = {}
     units = opt_res_units() + mm_units() + rebind_units(tier, seed)
+    units += c19_hyg.ev_units(Unit) + c19_hyg.hy_units(Unit, tier, rebind_unit, payloads)
     # 1. units expected to be rejected are judged on their own
     check_individually(wd, [u for u in units if u.expect_reject], stats)
     # 2. chunks, compiled in parallel
@@ -780,6 +794,10 @@ def generate(ctx):
     stats["units_rejected_by_rustc"] = sorted(u.req[0] + "*" + u.req[1] for u in units if u.rejected)[:40]
     stats["n_units_rejected_by_rustc"] = sum(1 for u in units if u.rejected)
     ctx["extra"]["c19_programs"] = stats
+    # regression rows (the call sites of repaired defects, independent of tier and seed) come first
+    reg = [u.req for u in units if getattr(u, "regression", None)]
+    rows.sort(key=lambda r: 0 if any(r[0].startswith(a) and r[0].endswith(b) for a, b in reg) else 1)
+    stats["regression_rows"] = sum(1 for r in rows if any(r[0].startswith(a) and r[0].endswith(b) for a, b in reg))
     if ctx.get("only") is not None:
         rows = [r for r in rows if r[0] in ctx["only"]]
     return common.write_tsv(os.path.join(core.BUILD, "t_C19_c19.tsv"), rows)
